@@ -168,7 +168,10 @@ public:
     void rollback(std::size_t iteration) override
     {
         Checkpoint::rollback(iteration);
-        generators_.erase(generators_.begin() + iteration, generators_.end());
+
+        // there is one generator more than there are results: `generators_[k]` is the state of the
+        // generator after `k` iterations, which must be kept
+        generators_.erase(generators_.begin() + iteration + 1, generators_.end());
     }
 
     void serialize(std::ostream& out) const override
